@@ -1334,6 +1334,10 @@ def is_kanji(data):
         code = (next(data_iter) << 8) | next(data_iter)
         if not (0x8140 <= code <= 0x9ffc or 0xe040 <= code <= 0xebbf):
             return False
+        # The second byte of a double-byte Shift JIS character is in the
+        # range 0x40 .. 0xfc (excluding 0x7f)
+        if not 0x40 <= code & 0xff <= 0xfc or code & 0xff == 0x7f:
+            return False
     return True
 
 
